@@ -112,12 +112,42 @@ Theorem strict_sound_refuted_empty_extensions : refuted_by vr_ext_empty req_ext_
 Proof. exact refuted_ext_empty. Qed.
 Print Assumptions strict_sound_refuted_empty_extensions.
 
-(* ---- three further audited rules (2026-09-29) ----
-   valid_obj_x (Spec/StixValid.v) = valid_obj plus: a binary property is RFC 4648 base64 text; no null and no empty
-   list inside a dictionary value.  The rule created <= modified is a co-constraint of the frozen tables (audited
-   override), hence part of valid_obj itself.  The soundness theorems above are about valid_obj; valid_obj_x is the
-   predicate of the check's oracle.  It strengthens valid_obj, and the code as pinned violates each of the three
-   rules: the model of the pinned behaviour is refuted, the repaired one refuses the witness.             *)
+(* ---- the audited validator valid_obj_x (2026-09-29) and what of it the theorems above cover ----
+   valid_kind_x / valid_obj_x (Spec/StixValid.v) is the validator the check's ORACLE evaluates.  It is the knot
+   valid_kind_g / valid_obj_g of the same two bodies as valid_kind / valid_obj with exactly two more clauses:
+     leaf_extra k j     on every value of a property kind: KBinary -> strict RFC 4648 base64 text; KDict -> no null
+                        and no empty list anywhere inside the values; every other kind -> true;
+     marking_match      on every object: the `definition` of a marking-definition is an object of the marking type
+                        its `definition_type` names.
+   audited_clauses_are_all: with both clauses trivial the knot IS valid_kind / valid_obj -- so these two clauses are
+   precisely what the soundness theorems above (stated with valid_obj) do not speak about.  Of them:
+     KBinary   proved at the kind level (binary_clause_sound: BinaryProperty.clean with the strict decoder,
+               vr_b64_strict = true, returns only text the clause accepts; any mode); not lifted through the
+               object / knot induction.  The lenient decoder is refuted (strict_sound_refuted_binary_not_base64).
+     KDict     false of the code in every variant (strict_sound_refuted_dictionary_null_value): known finding
+               C02-dictionary-value-null-or-empty-list, no repair proposed.
+     marking_match   not proved (oracle only; a JSON `definition` is rebuilt by the class named by definition_type,
+               only an already constructed marking object given from Python can differ).
+   The rule created <= modified is NOT one of the two clauses: it is a co-constraint of the frozen tables (audited
+   override), hence part of valid_obj and inside the soundness theorems; on a tree that does not check it
+   (known finding C02-modified-before-created) refine_failures names constraint|<class>|0 for the 37 classes and
+   the generated-tables instances speak about spec_relaxed, i.e. the specification without that constraint there;
+   strict_sound_refuted_modified_before_created is the refutation for tables without the rule.            *)
+Theorem audited_clauses_are_all :
+  forall (sw : world) pok n,
+    (forall k j, valid_kind_g sw pok (fun _ _ => true) (fun _ _ _ => true) n k j = valid_kind sw pok n k j) /\
+    (forall c j, valid_obj_g sw pok (fun _ _ => true) (fun _ _ _ => true) n c j = valid_obj sw pok n c j).
+Proof. exact valid_g_trivial. Qed.
+Print Assumptions audited_clauses_are_all.
+
+Theorem binary_clause_sound :
+  forall (vr : variant) (w sp : world) pok rc rp ro allow interop v pv hc n,
+    vr_b64_strict vr = true ->
+    clean_kind vr w rc rp ro KBinary allow interop v = Ok (pv, hc) ->
+    hc = false /\ valid_kind_x sp pok (S n) KBinary (encode false pv) = true.
+Proof. exact binary_clause_sound_pf. Qed.
+Print Assumptions binary_clause_sound.
+
 Theorem audited_validator_strengthens :
   forall (sw : world) pok n c j, valid_obj_x sw pok n c j = true -> valid_obj sw pok n c j = true.
 Proof. exact valid_obj_x_sub. Qed.
